@@ -1,6 +1,5 @@
 package align
 
-func vpDigit(i int) string { return string(rune('0' + i)) }
 
 var vpAlpha = []byte{'A', 'C', 'G'}
 
